@@ -277,6 +277,13 @@ func (e *refEncoder) enc(n *Node, v reflect.Value) Enc {
 			}
 			out.F = append(out.F, FieldRef{Off: len(out.B), W: 3, Kind: "raw", Group: 0})
 			out.B = append(out.B, byte(x), byte(x>>8), byte(x>>16))
+		case "p16":
+			x := v.Interface().(CustomP16).V ^ 0xA5A5
+			out.F = append(out.F, FieldRef{Off: len(out.B), W: 2, Kind: "raw", Group: 0})
+			out.B = append(out.B, byte(x), byte(x>>8))
+		case "pr":
+			out.F = append(out.F, FieldRef{Off: len(out.B), W: 1, Kind: "raw", Group: 0})
+			out.B = append(out.B, v.Interface().(CustomPR).V^0x5A)
 		case "var":
 			b := v.Interface().(CustomVar).B
 			if len(b) > math.MaxUint16 {
